@@ -170,16 +170,15 @@ Local Open Scope string_scope.
      collect-sorted  keys or values appended to a slice that is then sorted with sort.Strings/Ints/Float64s and walked
                      (sorted_walk_order_free);
      delete          delete(m, key) for every key (delete_all_order_free);
-     copy-entries    dst[key] = value for every entry: distinct keys (copy_all_order_free).
+     copy-entries    dst[key] = value for every entry: distinct keys (copy_all_order_free); also m(key, value) when the callee,
+                     resolved through the type checker, does nothing but recv.field[p0] = p1 (ISchema.AddType).
    So a loop of these shapes may be renamed, moved or added without a new argument. *)
 Definition generic_classes : list string := ["collect-sorted"; "delete"; "copy-entries"].
 (* shapes whose order-freeness rests on something particular: identified by file|function|class (the text of the ranged
    expression is not part of the identity, so renaming a local changes nothing) *)
 Definition accounted_sites : list string := [
   (* collected, sorted with typeCheckedBefore (a total order: tk_total/tk_antisym/tk_trans), walked: gsorted_walk_order_free *)
-  "notations/jschema/checker/check_schema.go|CheckRootSchema|collect-sorted-by:sort.Slice:typeCheckedBefore";
-  (* AddType per entry of a map with distinct keys into another map: copy_all_order_free *)
-  "notations/jschema/loader/compiler_all_of.go|CompileAllOf|call:rootSchema.AddType"
+  "notations/jschema/checker/check_schema.go|CheckRootSchema|collect-sorted-by:sort.Slice:typeCheckedBefore"
 ].
 (* loops that stop at the first key that matches (first_match_order_free): the translator lists the keys of the map
    literal; the loop is accounted for when it is at one of these places AND every key belongs to one family of
